@@ -3,7 +3,7 @@ use vstd::prelude::*;
 /// stand-in for util::rw::WriteHandle (an error stream): writes are not modelled
 pub struct WriteHandle { x: u8 }
     impl Clone for WriteHandle { #[verifier::external_body] fn clone(&self) -> Self { unimplemented!() } }
-impl WriteHandle { #[verifier::external_body] pub fn emit(&mut self) {} #[verifier::external_body] pub fn flush(&mut self) -> Result<(),()> { Ok(()) } }
+impl WriteHandle { #[verifier::external_body] pub fn stdout_write_handle() -> WriteHandle { unimplemented!() } #[verifier::external_body] pub fn stderr_write_handle() -> WriteHandle { unimplemented!() } #[verifier::external_body] pub fn emit(&mut self) {} #[verifier::external_body] pub fn flush(&mut self) -> Result<(),()> { Ok(()) } }
 }
 pub mod date {
 use vstd::prelude::*;
@@ -12,6 +12,9 @@ use crate::time::Date;
 pub uninterp spec fn spec_today() -> int;
 #[verifier::external_body]
 pub fn today_local() -> (r: Date) ensures r@ == spec_today() { unimplemented!() }
+/// util::date::parse_standard_date
+#[verifier::external_body]
+pub fn parse_standard_date(s: &str) -> Result<Date, DateParseError> { unimplemented!() }
 /// util::date::parse_date (time crate parsing): the date a text denotes under a format, a function of both
 pub uninterp spec fn spec_parse_date(s: Seq<char>, fmt: &Option<crate::util::date_fmt::DynDateFormat>) -> Option<int>;
 #[verifier::external_body]
@@ -26,11 +29,18 @@ use vstd::prelude::*;
 /// stand-in for util::rw::DescribedReader (a named byte source); reading is not modelled
 #[verifier::external_body]
 pub struct DescribedReader { x: u8 }
-impl DescribedReader { #[verifier::external_body] pub fn desc(&self) -> &str { unimplemented!() } }
+impl DescribedReader { #[verifier::external_body] pub fn desc(&self) -> &str { unimplemented!() }
+    /// `DescribedReader::from_file_path(PathBuf::from(name))`
+    #[verifier::external_body] pub fn from_file_name(name: String) -> (r: DescribedReader) ensures spec_named(&r) == name@ { unimplemented!() } }
+/// the file name a reader was made from
+pub uninterp spec fn spec_named(r: &DescribedReader) -> Seq<char>;
 }
 pub mod date_fmt {
 use vstd::prelude::*;
 /// stand-in for util::date::DynDateFormat (time::format_description::OwnedFormatItem)
 #[verifier::external_body]
 pub struct DynDateFormat { x: u8 }
+/// util::date::parse_dyn_date_format
+#[verifier::external_body]
+pub fn parse_dyn_date_format(fmt: &str) -> Result<DynDateFormat, String> { unimplemented!() }
 }
